@@ -174,3 +174,21 @@ Theorem C18_unsatisfied_iff_error_ops : forall c ops,
   ((exists l, sorted s = UnsatAfter l) <-> unsat_before c ds = [] /\ unsat_after c ds <> []).
 Proof. exact unsatisfied_iff_error_ops. Qed.
 Print Assumptions C18_unsatisfied_iff_error_ops.
+
+(* predicate lists: whatever add_view_predicate / add_route_predicate /
+   add_subscriber_predicate calls are made (the argument mapping of each hop is a
+   regenerated fact), the resulting order or error is accepted by the judge for the
+   declarations  weighs_more_than = after, weighs_less_than = before *)
+Theorem C18_preds_scenario_judged : forall k adds,
+  judge cfg_plain (decls_of cfg_plain (pred_ops k adds)) (sorted (preds_scenario k adds)) = true.
+Proof. exact preds_scenario_judged. Qed.
+Print Assumptions C18_preds_scenario_judged.
+
+(* tween histories: however additions (incl. re-additions of an existing name) and looks at
+   the order are interleaved, every look sees an order / error accepted for the declarations
+   in force at that moment (in particular nothing is remembered from an earlier look) *)
+Theorem C18_tweens_history_judged : forall ex evs,
+  Forall (fun td => judge cfg_tweens (snd td) (implicit (fst td)) = true)
+         (hist_looks (tweens_init ex) tweens_init_decls evs).
+Proof. exact tweens_history_judged. Qed.
+Print Assumptions C18_tweens_history_judged.
